@@ -149,3 +149,24 @@ Theorem C16_checked_paths_under_root : forall info name root root_is_file fis to
   check_paths info name root root_is_file = Some (fis, total) -> Forall (under root) fis.
 Proof. exact check_paths_under_root. Qed.
 Print Assumptions C16_checked_paths_under_root.
+
+(* ---------------------------------------------------------------------------------------------- *)
+(* from the integers to the reported float: (matched / consumed) * 100  (Proofs/Percent.v)        *)
+(* ---------------------------------------------------------------------------------------------- *)
+(* IEEE model: Checker.iter_hashes ends with `self._result = (matched / consumed) * 100`.  CPython's
+   int / int is the correctly rounded binary64 value of the exact quotient, and `* 100` is one
+   binary64 multiplication; both round to nearest, ties to even.  `percent m c` is
+   rnd (rnd (m / c) * 100) over the reals, where rnd is Flocq's rounding to the binary64 format
+   (radix 2, FLT_exp (-1074) 53, ZnearestE): the standard characterisation "an IEEE operation returns
+   the rounding of the exact result" (no overflow is possible, all values lie in [0, 100]).
+   These theorems depend on the axioms of Coq's real numbers that Flocq uses (and on nothing else):
+   ClassicalDedekindReals.sig_forall_dec, ClassicalDedekindReals.sig_not_dec,
+   FunctionalExtensionality.functional_extensionality_dep, Classical_Prop.classic. *)
+From Coq Require Import ZArith Reals.
+From TF Require Import Proofs.Percent.
+
+(* the reported value is 100.0 exactly when every consumed byte matched (up to 2^53 consumed bytes) *)
+Theorem C16_float_100_iff_all_match : forall m c : Z,
+  (0 <= m <= c)%Z -> (0 < c <= 2 ^ 53)%Z -> (percent m c = 100%R <-> m = c).
+Proof. exact percent_100_iff. Qed.
+Print Assumptions C16_float_100_iff_all_match.
